@@ -180,7 +180,9 @@ func init() {
 		maxSpan := 1023
 		err := readND(a[0], func(i int, raw []byte) error {
 			var c struct {
-				Frames []B `json:"frames"`
+				Frames []B    `json:"frames"`
+				Expect []XMsg `json:"expect"` // what the whole stream yields (frames and completed messages, in order)
+				Counts []int  `json:"counts"` // counts[k]: outputs due once k whole frames have arrived
 			}
 			if err := jsonUnmarshal(raw, &c); err != nil {
 				return err
@@ -218,19 +220,28 @@ func init() {
 							bad = "error-or-panic " + st.Panic
 						}
 						for _, m := range st.Out {
-							if got >= len(c2frames(c.Frames)) || !bytes.Equal(m.Raw, c.Frames[got]) {
-								bad = "wrong-frame-delivered"
+							if c.Expect == nil { // plain frames only
+								if got >= len(c2frames(c.Frames)) || !bytes.Equal(m.Raw, c.Frames[got]) {
+									bad = "wrong-frame-delivered"
+								}
+							} else if got >= len(c.Expect) || m.Kind != c.Expect[got].Kind || !bytes.Equal(m.Raw, c.Expect[got].Raw) ||
+								(m.Kind != "part" && !bytes.Equal(m.Body, c.Expect[got].Body)) {
+								bad = "wrong-message-delivered kind=" + m.Kind
 							}
 							got++
 						}
-						if bad == "" && got != whole(pos) {
-							bad = fmt.Sprintf("delivered-%d-frames-expected-%d", got, whole(pos))
+						due := whole(pos)
+						if c.Expect != nil {
+							due = c.Counts[whole(pos)]
+						}
+						if bad == "" && got != due {
+							bad = fmt.Sprintf("delivered-%d-messages-expected-%d", got, due)
 						}
 						if bad == "" && st.Hist != pos-endBefore(ends, pos) {
 							bad = "buffer-length-differs"
 						}
 						if bad != "" {
-							out.put(mismatch{"segmentation-dependent " + bad, fmt.Sprintf("cuts=%v at pos %d", cuts, pos), map[string]any{"frames": c.Frames, "cuts": cuts}})
+							out.put(mismatch{"segmentation-dependent " + bad, fmt.Sprintf("cuts=%v at pos %d", cuts, pos), map[string]any{"frames": c.Frames, "expect": c.Expect, "counts": c.Counts, "cuts": cuts}})
 							return false
 						}
 					}
